@@ -23,6 +23,13 @@
 #include "qlibc.h"
 #include <stddef.h>
 
+/* ambient errno: the value the caller brings into EVERY library call cycles through these (op counter),
+ * so a result that depends on a stale errno, or a documented-errno failure path that leaves errno
+ * untouched, shows in the transcript (the model prints the documented errno) */
+static unsigned amb_n = 0;
+static const int AMB[8] = {0, ENOMEM, ERANGE, EINTR, ENOENT, EINVAL, EAGAIN, ENOBUFS};
+#define PLANT() (errno = AMB[amb_n++ & 7])
+
 #define GUARDSZ 4096
 #define PAT 0xA5
 #define SMALLCAP 12
@@ -136,7 +143,7 @@ static void keys_clear(keys_t *ks) { for (size_t i = 0; i < ks->n; i++) free(ks-
 static void walk_text(sb_t *b, qhasharr_t *tbl) {
     int idx = 0; qhasharr_obj_t obj;
     sb_puts(b, "w");
-    while (tbl->getnext(tbl, &obj, &idx)) {
+    while (PLANT(), tbl->getnext(tbl, &obj, &idx)) {
         sb_puts(b, " "); sb_int(b, idx - 1); sb_puts(b, ":"); sb_name(b, obj.name, obj.namesize);
         sb_puts(b, "="); sb_hex(b, obj.data, obj.datasize);
         free(obj.name); free(obj.data);
@@ -146,12 +153,13 @@ static void walk_text(sb_t *b, qhasharr_t *tbl) {
 /* size + walk + get of every key through one handle */
 static void obs_text(sb_t *b, qhasharr_t *tbl, keys_t *ks) {
     int max = -1, used = -1;
+    PLANT();
     int num = tbl->size(tbl, &max, &used);
     sb_puts(b, "s "); sb_int(b, num); sb_puts(b, " "); sb_int(b, max); sb_puts(b, " "); sb_int(b, used); sb_puts(b, " ");
     walk_text(b, tbl);
     sb_puts(b, " k");
     for (size_t i = 0; i < ks->n; i++) {
-        size_t sz = 0; errno = 0;
+        size_t sz = 0; PLANT();
         void *d = tbl->get_by_obj(tbl, ks->v[i].p, ks->v[i].n, &sz);
         sb_puts(b, " ");
         if (d) { sb_puts(b, "="); sb_hex(b, d, sz); free(d); } else sb_puts(b, errname(errno));
@@ -200,7 +208,7 @@ int main(void) {
             if (tbl) { tbl->free(tbl); tbl = NULL; region_free(&R); free(shadow); shadow = NULL; }
             keys_clear(&ks); nops = 0;
             R = region_new(memsize, 0);
-            errno = 0;
+            PLANT();
             tbl = qhasharr(R.mem, memsize);
             if (!tbl) {
                 bool untouched = guards_ok(&R);
@@ -219,7 +227,7 @@ int main(void) {
             int saved = gmode;
             gmode = nw == 3 && !strcmp(w[2], "exact") ? 2 : 0;
             region_t T = region_new(memsize, 4);
-            errno = 0;
+            PLANT();
             qhasharr_t *t = qhasharr(T.mem, memsize);
             int e = errno;
             bool same = memcmp(T.mem, T.ref + T.gfront + T.off, memsize) == 0;
@@ -230,7 +238,7 @@ int main(void) {
                 qhasharr_data_t *h = (qhasharr_data_t *) T.mem;
                 bool zero = true;
                 for (size_t o = sizeof(qhasharr_data_t); o < memsize; o++) if (T.mem[o] != 0) zero = false;
-                int max = -1, used = -1, num = t->size(t, &max, &used);
+                int max = -1, used = -1, num = (PLANT(), t->size(t, &max, &used));
                 bool agree = max == h->maxslots && used == h->usedslots && num == h->num;
                 printf("ctor ok %d %d %d %s g%d\n", h->maxslots, h->usedslots, h->num, zero && agree ? "zero" : "nonzero", g);
             }
@@ -254,9 +262,9 @@ int main(void) {
             const char *kk = "k";
             size_t sz; int idx; qhasharr_obj_t obj; void *p;
             sb_puts(&res, "inv");
-#define ANSB(tok, call) do { errno = 0; bool ok_ = (call); int e_ = errno; sb_puts(&res, " " tok "="); sb_puts(&res, ok_ ? "ok" : ename(e_)); } while (0)
-#define ANSP(tok, call) do { errno = 0; p = (call); int e_ = errno; sb_puts(&res, " " tok "="); if (p) { sb_puts(&res, "data"); free(p); } else { sb_puts(&res, "null:"); sb_puts(&res, errname(e_)); } } while (0)
-#define ANSQ(tok, call) do { errno = 0; p = (call); int e_ = errno; sb_puts(&res, " " tok "="); if (p) { sb_puts(&res, "data"); free(p); } else sb_puts(&res, errname(e_)); } while (0)
+#define ANSB(tok, call) do { PLANT(); bool ok_ = (call); int e_ = errno; sb_puts(&res, " " tok "="); sb_puts(&res, ok_ ? "ok" : ename(e_)); } while (0)
+#define ANSP(tok, call) do { PLANT(); p = (call); int e_ = errno; sb_puts(&res, " " tok "="); if (p) { sb_puts(&res, "data"); free(p); } else { sb_puts(&res, "null:"); sb_puts(&res, errname(e_)); } } while (0)
+#define ANSQ(tok, call) do { PLANT(); p = (call); int e_ = errno; sb_puts(&res, " " tok "="); if (p) { sb_puts(&res, "data"); free(p); } else sb_puts(&res, errname(e_)); } while (0)
             ANSB("pbo:nn", tbl->put_by_obj(tbl, NULL, 1, d1, 1));
             ANSB("pbo:ns0", tbl->put_by_obj(tbl, kk, 0, d1, 1));
             ANSB("pbo:dn", tbl->put_by_obj(tbl, kk, 1, NULL, 1));
@@ -284,8 +292,9 @@ int main(void) {
             idx = 0; ANSB("next:tbl", tbl->getnext(NULL, &obj, &idx) || idx != 0);
             idx = -1; ANSB("next:-1", tbl->getnext(tbl, &obj, &idx) || idx != -1);
             ANSB("size:tbl", tbl->size(NULL, &idx, &idx) != -1);
-            sb_puts(&res, " size:noout="); sb_int(&res, tbl->size(tbl, NULL, NULL));
-            errno = 0; tbl->clear(NULL); sb_puts(&res, " clear:tbl="); sb_puts(&res, errno ? errname(errno) : "none");
+            PLANT(); sb_puts(&res, " size:noout="); sb_int(&res, tbl->size(tbl, NULL, NULL));
+            PLANT(); if (errno == EINVAL) errno = ERANGE;
+            { int planted = errno; tbl->clear(NULL); sb_puts(&res, " clear:tbl="); sb_puts(&res, errno != planted ? errname(errno) : "none"); }
             ANSB("debug:tbl", tbl->debug(NULL, stdout));
             ANSB("debug:out", tbl->debug(tbl, NULL));
             if (sz != 77) sb_puts(&res, " size-written");
@@ -293,7 +302,7 @@ int main(void) {
         } else if (nw == 5 && (!strcmp(op, "put") || !strcmp(op, "sput"))) {
             bytes_t k, v;
             if (!unhex(w[1], &k) || !unhex(w[2], &v)) { printf("bad-op\n"); continue; }
-            bool ok; errno = 0;
+            bool ok; PLANT();
             if (op[0] == 's') {
                 char *s = cstr_exact(&k);
                 ok = tbl->put(tbl, s, v.p, v.n);
@@ -309,7 +318,7 @@ int main(void) {
         } else if (nw == 4 && (!strcmp(op, "get") || !strcmp(op, "sget"))) {
             bytes_t k;
             if (!unhex(w[1], &k)) { printf("bad-op\n"); continue; }
-            size_t sz = 0; void *d; errno = 0;
+            size_t sz = 0; void *d; PLANT();
             if (op[0] == 's') {
                 char *s = cstr_exact(&k);
                 d = tbl->get(tbl, s, &sz);
@@ -326,7 +335,7 @@ int main(void) {
             bytes_t k, v;
             if (!unhex(w[1], &k) || !unhex(w[2], &v)) { printf("bad-op\n"); continue; }
             char *s = cstr_exact(&k), *t = cstr_exact(&v);
-            errno = 0;
+            PLANT();
             bool ok = tbl->putstr(tbl, s, t);
             int e = errno;
             keys_add(&ks, (unsigned char *) s, k.n + 1);
@@ -337,12 +346,12 @@ int main(void) {
             bytes_t k;
             if (!unhex(w[1], &k)) { printf("bad-op\n"); continue; }
             char *s = cstr_exact(&k);
-            errno = 0;
+            PLANT();
             char *d = tbl->getstr(tbl, s);
             int e = errno;
             keys_add(&ks, (unsigned char *) s, k.n + 1);
             if (d) {
-                size_t sz = 0; void *d2 = tbl->get(tbl, s, &sz);
+                size_t sz = 0; PLANT(); void *d2 = tbl->get(tbl, s, &sz);
                 sb_puts(&res, "data "); sb_hex(&res, d, d2 ? sz : 0);
                 if (!d2 || memcmp(d, d2, sz) != 0) sb_puts(&res, " getstr-differs");
                 free(d2); free(d);
@@ -351,7 +360,7 @@ int main(void) {
         } else if (nw == 4 && (!strcmp(op, "rm") || !strcmp(op, "srm"))) {
             bytes_t k;
             if (!unhex(w[1], &k)) { printf("bad-op\n"); continue; }
-            bool ok; errno = 0;
+            bool ok; PLANT();
             if (op[0] == 's') {
                 char *s = cstr_exact(&k);
                 ok = tbl->remove(tbl, s);
@@ -365,19 +374,19 @@ int main(void) {
             if (ok) sb_puts(&res, "ok"); else { sb_puts(&res, "false "); sb_puts(&res, errname(e)); }
             free(k.p);
         } else if (nw == 2 && !strcmp(op, "rmi")) {
-            errno = 0;
+            PLANT();
             bool ok = tbl->remove_by_idx(tbl, atoi(w[1]));
             int e = errno;
             if (ok) sb_puts(&res, "ok"); else { sb_puts(&res, "false "); sb_puts(&res, errname(e)); }
         } else if (nw == 1 && !strcmp(op, "clear")) {
-            tbl->clear(tbl); sb_puts(&res, "ok");
+            PLANT(); tbl->clear(tbl); sb_puts(&res, "ok");
         } else if (nw == 1 && !strcmp(op, "size")) {
-            int max = -1, used = -1; int num = tbl->size(tbl, &max, &used);
+            int max = -1, used = -1; PLANT(); int num = tbl->size(tbl, &max, &used);
             sb_puts(&res, "size "); sb_int(&res, num); sb_puts(&res, " "); sb_int(&res, max); sb_puts(&res, " "); sb_int(&res, used);
         } else if (nw == 1 && !strcmp(op, "walk")) {
             walk_text(&res, tbl);
         } else if (nw == 2 && !strcmp(op, "next")) {
-            int idx = atoi(w[1]); qhasharr_obj_t obj; errno = 0;
+            int idx = atoi(w[1]); qhasharr_obj_t obj; PLANT();
             if (tbl->getnext(tbl, &obj, &idx)) {
                 sb_puts(&res, "obj "); sb_int(&res, idx); sb_puts(&res, " "); sb_name(&res, obj.name, obj.namesize);
                 sb_puts(&res, " "); sb_hex(&res, obj.data, obj.datasize);
@@ -388,10 +397,10 @@ int main(void) {
             long m = atol(w[1]), r = atol(w[2]), j = 0;
             int idx = 0; qhasharr_obj_t obj;
             sb_puts(&res, "walkrm");
-            while (tbl->getnext(tbl, &obj, &idx)) {
+            while (PLANT(), tbl->getnext(tbl, &obj, &idx)) {
                 sb_puts(&res, " "); sb_int(&res, idx - 1); sb_puts(&res, ":"); sb_name(&res, obj.name, obj.namesize); sb_puts(&res, ":");
                 if (m > 0 && j % m == r) {
-                    idx--; errno = 0;
+                    idx--; PLANT();
                     bool ok = tbl->remove_by_idx(tbl, idx);
                     sb_puts(&res, ok ? "ok" : errname(errno));
                 } else sb_puts(&res, "-");
@@ -441,7 +450,7 @@ int main(void) {
             if (coff == R.off) coff += 4;                     /* never the same offset as the original */
             C = region_new(R.memsize, coff);
             memcpy(C.mem, R.mem, R.memsize);
-            tbl2 = qhasharr(C.mem, 0);
+            PLANT(); tbl2 = qhasharr(C.mem, 0);
             tc.n = 0; sb_puts(&tc, ""); obs_text(&tc, tbl2, &ks);
             if (!guards_ok(&C) || memcmp(C.mem, R.mem, R.memsize) != 0 || memcmp(shadow, R.mem, R.memsize) != 0) g1 = false;
         }
